@@ -102,17 +102,17 @@ Print Assumptions from_day_covers_all_zones_refuted.
    a row that passes every conjunct of a timestamp-bounded scan lies inside the widened window *)
 Theorem window_semantic : forall re_match parse_float tie db w sc r ts,
   ts_bounded w sc -> col_value sc "timestamp_ns" (sc_tsn sc) r ts ->
-  admitted re_match parse_float tie db sc r ->
+  kept re_match parse_float tie db sc r ->
   w_lo_min w <= ts /\ ts <= w_hi_max w.
-Proof. exact admitted_in_window. Qed.
+Proof. exact kept_in_window. Qed.
 Print Assumptions window_semantic.
 
 (* ... and carries the type of the API that was called, or 0 *)
 Theorem window_semantic_type : forall re_match parse_float tie db w sc r ty,
   type_confined w sc -> col_value sc "type" ["type"%string] r ty ->
-  admitted re_match parse_float tie db sc r ->
+  kept re_match parse_float tie db sc r ->
   ty = w_type w \/ ty = 0.
-Proof. exact admitted_type. Qed.
+Proof. exact kept_type. Qed.
 Print Assumptions window_semantic_type.
 
 (* ... and no row inside the requested window is cut off by a timestamp conjunct *)
